@@ -28,6 +28,8 @@ pub enum Ty {
     A3,
     Al32,
     Unit,
+    /// zero-sized but 8-aligned
+    Z8,
 }
 
 #[derive(Clone, Debug, PartialEq, Eq)]
@@ -151,6 +153,10 @@ macro_rules! with_ty {
             }
             Ty::Unit => {
                 type $T = ();
+                $body
+            }
+            Ty::Z8 => {
+                type $T = [u64; 0];
                 $body
             }
         }
@@ -451,7 +457,7 @@ struct St<'c> {
 }
 
 fn decode_req(r: &Rec, remaining: usize) -> Req {
-    let ty = [Ty::U8, Ty::U32, Ty::A3, Ty::Al32, Ty::Unit][r.b(4) as usize % 5];
+    let ty = [Ty::U8, Ty::U32, Ty::A3, Ty::Al32, Ty::Unit, Ty::Z8, Ty::U8, Ty::U32][r.b(4) as usize % 8];
     let n = match r.b(5) % 8 {
         0 => 0,
         1..=4 => r.b(6) as usize % 24,
